@@ -70,6 +70,8 @@ type image struct {
 	IsCbfs    bool
 	CbfsOff   uint32
 	Cbfs      []cbfsFile
+	Inner     bool // the mapped region does not end at the end of the image (RegionEnd < len)
+	NoFit     bool // no FIT / CBFS at all: only address translation and digests are exercised
 	enc       string
 }
 
@@ -217,8 +219,15 @@ func randomPlan() fitPlan {
 	return pl
 }
 
+// forceLen != 0: the generators produce an image of exactly that many bytes (a multiple of
+// 0x1000, at least 0x3000), so that images of different layouts can share one buffer
+var forceLen int
+
 func genBiosOnly(pl fitPlan) *image {
 	n := pick(0x2000, 0x2000, 0x3000, 0x4000, 0x8000)
+	if forceLen != 0 {
+		n = forceLen
+	}
 	im := &image{Name: "bios-only", Bytes: newPatImage(n), Lay: layout{Kind: "bios"}, RegionEnd: n, FitOK: true}
 	tbl := n - 0x800
 	im.Fit = buildFit(im, pl, 0, tbl)
@@ -228,6 +237,9 @@ func genBiosOnly(pl fitPlan) *image {
 
 func genIFD(pl fitPlan) *image {
 	nblk := pick(3, 4, 4, 6, 8)
+	if forceLen != 0 {
+		nblk = forceLen / 0x1000
+	}
 	n := nblk * 0x1000
 	base := 1 + rng.Intn(nblk-2)
 	im := &image{Name: "ifd", Bytes: newPatImage(n), RegionEnd: n, RegionBeg: base * 0x1000, FitOK: true}
@@ -243,6 +255,9 @@ func genIFD(pl fitPlan) *image {
 // the bootblock, which holds the FIT and the FIT pointer.
 func genCoreboot(pl fitPlan) *image {
 	nblk := pick(3, 4, 4, 8)
+	if forceLen != 0 {
+		nblk = forceLen / 0x1000
+	}
 	n := nblk * 0x1000
 	cbOff := pick(0x1000, 0x1000, 0x2000)
 	if nblk == 3 {
@@ -578,9 +593,13 @@ type segInput struct {
 
 // ------------------------------------------------------------------ case kinds
 
-func caseOffset(im *image) {
-	addrs := []uint64{im.phys(im.RegionBeg + rng.Intn(len(im.Bytes)-im.RegionBeg)),
-		pick(im.phys(im.RegionBeg), im.phys(len(im.Bytes)-1), basePhys-1, basePhys-16)}
+func caseOffset(im *image) { caseOffsetOn(im, im.Bytes, "") }
+
+// view: the slice handed to the code (im.Bytes itself, or the harness's reused buffer holding
+// the same bytes); note: what the call history was, for the failing input
+func caseOffsetOn(im *image, view []byte, note string) {
+	addrs := []uint64{im.phys(im.RegionBeg + rng.Intn(im.RegionEnd-im.RegionBeg)),
+		pick(im.phys(im.RegionBeg), im.phys(im.RegionEnd-1), basePhys-1, basePhys-16)}
 	switch rng.Intn(4) {
 	case 0:
 		addrs = append(addrs, 0, basePhys, basePhys+uint64(rng.Intn(1<<20)), ^uint64(0), 1<<63, uint64(rng.Int63()))
@@ -590,20 +609,20 @@ func caseOffset(im *image) {
 	for _, a := range addrs {
 		var o uint64
 		var err error
-		p, _ := gal.Recover(func() { o, err = tools.CalcImageOffset(im.Bytes, a) })
-		in := segInput{Image: im.Name, Layout: im.Lay, Len: len(im.Bytes), Extra: fmt.Sprintf("addr=%#x", a)}
+		p, _ := gal.Recover(func() { o, err = tools.CalcImageOffset(view, a) })
+		in := segInput{Image: im.Name, Layout: im.Lay, Len: len(im.Bytes), Extra: fmt.Sprintf("addr=%#x", a) + note}
 		idx := ctx.Add("offset/"+im.Lay.Kind, fmt.Sprintf("COffset %s %d %s %s", im.Lay.lit(), len(im.Bytes), gal.U(a), obsLit(p, err, gal.U(o))), in, true)
 		// oracle: addresses inside the mapped region translate to region_end - (4GiB - addr)
 		if want, ok := im.specOff(a); ok && want >= im.RegionBeg {
 			switch {
 			case p || err != nil:
-				ctx.OracleFail(idx, "CalcImageOffset fails on an address inside the image", siteOffset, in)
+				ctx.OracleFail(idx, "CalcImageOffset fails on an address inside the image"+note, siteOffset, in)
 			case o == uint64(want):
 				ctx.OracleOK()
 			case im.Lay.Kind == "bios" && o == basePhys-a:
 				ctx.OracleFail(idx, fmt.Sprintf("CalcImageOffset(BIOS-region-only image of %#x bytes, %#x) = %#x (the tail offset 4GiB-addr, the defect repaired by 98fb605), want %#x", len(im.Bytes), a, o, want), siteOffset, in)
 			default:
-				ctx.OracleFail(idx, fmt.Sprintf("CalcImageOffset(%s, %#x) = %#x, want %#x", im.Lay.Kind, a, o, want), siteOffset, in)
+				ctx.OracleFail(idx, fmt.Sprintf("CalcImageOffset(%s image of %#x bytes, mapped region [%#x,%#x), %#x) = %#x, want %#x = region_end-(4GiB-addr)%s", im.Lay.Kind, len(im.Bytes), im.RegionBeg, im.RegionEnd, a, o, want, note), siteOffset, in)
 			}
 		}
 	}
@@ -716,19 +735,19 @@ func randomSegs(im *image, allowOutside bool) []seg {
 		if rng.Intn(4) == 0 {
 			size = uint32(rng.Intn(0x300)) // IBB segment sizes need not be multiples of 16
 		}
-		span := len(im.Bytes) - im.RegionBeg - int(size)
+		span := im.RegionEnd - im.RegionBeg - int(size)
 		off := im.RegionBeg + rng.Intn(span)
 		g := seg{uint32(im.phys(off)), size, pick[uint16](0, 0, 0, 1, 2, 3, uint16(rng.Intn(1<<16)))}
 		if allowOutside && rng.Intn(12) == 0 {
 			switch rng.Intn(4) {
 			case 0:
-				g.Base = uint32(im.phys(len(im.Bytes) - int(size)/2 - 1)) // straddles the end
+				g.Base = uint32(im.phys(im.RegionEnd - int(size)/2 - 1)) // straddles the end
 			case 1:
 				g.Base = uint32(im.phys(0) - uint64(1+rng.Intn(0x2000))) // below the image
 			case 2:
 				g.Base = uint32(rng.Intn(1 << 20)) // low memory
 			case 3:
-				g.Base = uint32(im.phys(len(im.Bytes)-1)) + 1 // wraps to 0 for the last byte + 1
+				g.Base = uint32(im.phys(im.RegionEnd-1)) + 1 // wraps to 0 for the last byte + 1
 			}
 		}
 		s = append(s, g)
@@ -738,9 +757,9 @@ func randomSegs(im *image, allowOutside bool) []seg {
 	case 0:
 		s = append(s, seg{uint32(im.phys(im.RegionBeg)), 32, 0}) // first byte of the region
 	case 1:
-		s = append(s, seg{uint32(im.phys(len(im.Bytes) - 32)), 32, 0}) // last bytes
+		s = append(s, seg{uint32(im.phys(im.RegionEnd - 32)), 32, 0}) // last bytes
 	case 2:
-		s = append(s, seg{uint32(im.phys(len(im.Bytes) / 2)), 0, 0}) // empty segment
+		s = append(s, seg{uint32(im.phys((im.RegionBeg + im.RegionEnd) / 2)), 0, 0}) // empty segment
 	}
 	if len(s) > 1 && rng.Intn(3) == 0 { // the same segment twice
 		s = append(s, s[0])
@@ -988,7 +1007,11 @@ func diffRuns(before, after []byte) (lits []string, runs [][2]int) {
 	return
 }
 
-func caseStitch(im *image) {
+func caseStitch(im *image) { caseStitchAt(im, "", "") }
+
+// path != "": the file (already holding im.Bytes) to stitch, a path the harness uses again and
+// again; note: the call history for the failing input
+func caseStitchAt(im *image, path string, note string) {
 	// sizes of the new blobs relative to the first entry of each kind: below / at / above
 	var kmE, bpmE, acmE *fitEnt
 	for i := range im.Fit {
@@ -1033,18 +1056,21 @@ func caseStitch(im *image) {
 	} else if rng.Intn(3) == 0 {
 		acm = acmBlob(0x80, 0x20, 0xac)
 	}
-	p := writeTmp(im.Bytes)
+	p := path
+	if p == "" {
+		p = writeTmp(im.Bytes)
+	}
 	var err error
 	pan, msg := gal.Recover(func() { err = bootguard.StitchFITEntries(p, acm, bpm, km) })
 	after, rerr := os.ReadFile(p)
 	if rerr != nil {
 		panic(rerr)
 	}
-	in := stitchInput{Image: im.Name, Layout: im.Lay, Len: len(im.Bytes), Fit: im.Fit, ACM: len(acm), BPM: len(bpm), KM: len(km), Extra: fmt.Sprintf("panic=%q err=%v len_after=%d", msg, err, len(after))}
+	in := stitchInput{Image: im.Name, Layout: im.Lay, Len: len(im.Bytes), Fit: im.Fit, ACM: len(acm), BPM: len(bpm), KM: len(km), Extra: fmt.Sprintf("panic=%q err=%v len_after=%d", msg, err, len(after)) + note}
 	lits, runs := diffRuns(im.Bytes, after)
 	if pan {
 		idx := ctx.Add("stitch/panic", fmt.Sprintf("CStitch %s %s %s %s %s %s false (-1) []", im.Lay.lit(), im.lit(), fitOptLit(im.Fit, im.FitOK), gal.Bytes(acm), gal.Bytes(bpm), gal.Bytes(km)), in, true)
-		ctx.OracleFail(idx, "StitchFITEntries panics: "+msg, siteStitch, in)
+		ctx.OracleFail(idx, "StitchFITEntries panics: "+msg+note, siteStitch, in)
 		return
 	}
 	idx := ctx.Add(fmt.Sprintf("stitch/%s/%s", im.Lay.Kind, map[bool]string{true: "ok", false: "err"}[err == nil]),
@@ -1129,7 +1155,7 @@ func caseStitch(im *image) {
 		if d9ok {
 			what += " (what the tail offsets 4GiB-addr explain: the CalcImageOffset defect repaired by 98fb605)"
 		}
-		ctx.OracleFail(idx, what, siteStitch, in)
+		ctx.OracleFail(idx, what+note, siteStitch, in)
 	}
 	// (a) frame: nothing outside the targeted entries' regions changes, the file keeps its length
 	if len(after) != len(im.Bytes) {
@@ -1290,6 +1316,10 @@ func main() {
 		caseStitch(im)
 		if rng.Intn(2) == 0 {
 			caseStitch(im)
+		}
+		// the same operations in sequences on one object / one buffer / one file (seq.go)
+		if i%3 == 0 {
+			caseSequence()
 		}
 	}
 	// malformed stream: no usable FIT
